@@ -135,6 +135,55 @@ def fallible_exits(code):
     return exits
 
 
+def add_source_exits(impl):
+    """add_source: per-source state (the warning suppressions registered by the
+    WarningSuppressionHook while the source is parsed) must be dropped on every
+    way out of the call once the hook exists. Pinned shape: the hook is created
+    in the `Ok(src)` arm of `match src.as_str()`; the other arm leaves at once;
+    after that `match` statement every `return`, `?` and the final value of the
+    function is an exit, recorded with whether `self.warnings.clear_suppressed()`
+    was executed on the way to it."""
+    body = strip_comments(fn_body(impl, "add_source"))
+    if body.count("WarningSuppressionHook") != 1:
+        raise TranslateError("add_source: expected exactly one WarningSuppressionHook")
+    m = re.search(r"let\s+ast\s*=\s*match\s+src\s*\.\s*as_str\s*\(\s*\)\s*\{", body)
+    if not m: raise TranslateError("add_source: `let ast = match src.as_str() {` not found")
+    end = match_brace(body, m.end() - 1)
+    arms = body[m.end():end]
+    ok = re.search(r"Ok\s*\(\s*src\s*\)\s*=>\s*\{", arms)
+    er = re.search(r"Err\s*\(\s*err\s*\)\s*=>\s*\{", arms)
+    if not ok or not er or er.start() < ok.start():
+        raise TranslateError("add_source: arms of `match src.as_str()` not understood")
+    ok_end = match_brace(arms, ok.end() - 1)
+    ok_arm = arms[ok.end():ok_end]
+    if "WarningSuppressionHook" not in ok_arm or re.search(r"\breturn\b|\?\s*[;)\n.,]", ok_arm):
+        raise TranslateError("add_source: the Ok arm must create the hook and cannot leave the function")
+    if "suppress" in arms[er.end():match_brace(arms, er.end() - 1)]:
+        raise TranslateError("add_source: the Err arm touches suppressions")
+    if "suppress" in body[:m.start()]:
+        raise TranslateError("add_source: suppressions touched before the source is parsed")
+    rest = body[end + 1:]
+    exits, stack = [], [False]
+    tok = re.compile(r"self\s*\.\s*warnings\s*\.\s*clear_suppressed\s*\(\s*\)|\breturn\b|\?\s*[;)\n.,]|[{}]|\"(?:[^\"\\]|\\.)*\"")
+    for t in tok.finditer(rest):
+        g = t.group(0)
+        if g == "{": stack.append(stack[-1])
+        elif g == "}":
+            if len(stack) > 1: stack.pop()
+        elif g.startswith('"'): continue
+        elif g.startswith("self"): stack[-1] = True
+        elif g == "return":
+            d = rest[t.end():t.end() + 60].strip().split("\n")[0]
+            exits.append((f"return {d[:40]}".replace('"', "'"), stack[-1]))
+        else:
+            d = rest[max(0, t.start() - 50):t.start()].strip().split("\n")[-1]
+            exits.append((f"{d[-40:]}?".replace('"', "'"), stack[-1]))
+    tail = rest.strip().split("\n")[-1].strip()
+    exits.append((f"final value {tail[:40]}".replace('"', "'"), stack[0]))
+    # the suppressions are consulted in Warnings::add only
+    return exits
+
+
 def main():
     text = src("lib/src/compiler/mod.rs")
     fields = struct_fields(text, "Compiler")
@@ -241,6 +290,11 @@ def main():
     L.append("   `self.restore_snapshot(snapshot)` was executed on the way to it *)")
     L.append("Definition fallible_exits : list (string * bool) :=\n  [" +
              ";\n   ".join(f'("{d}", {str(r).lower()})' for d, r in exits) + "].")
+    L.append("")
+    L.append("(* add_source: every exit after the warning-suppression hook was created (return / ? / final value),")
+    L.append("   and whether `self.warnings.clear_suppressed()` was executed on the way to it *)")
+    L.append("Definition add_source_exits : list (string * bool) :=\n  [" +
+             ";\n   ".join(f'("{d}", {str(r).lower()})' for d, r in add_source_exits(impl)) + "].")
     L.append("")
     write_if_changed("SnapshotGen.v", "\n".join(L) + "\n")
 
